@@ -649,7 +649,7 @@ func c08KindSort(w *World, r *Report) {
 	// the comparator, by role: a function (or closure) of the package that looks two kind names up
 	// (comma-ok) in one rank table and returns a bool
 	type cand struct {
-		fn                       *ssa.Function
+		fn                      *ssa.Function
 		aok, bok, first, second ssa.Value
 	}
 	var cands []cand
